@@ -59,3 +59,27 @@ def removed(old_xs, old_ys, i, new_xs, new_ys):
                 and implies(j >= i, new_xs[j] == old_xs[j + 1]
                             and new_ys[j] == old_ys[j + 1])
                 for j in range(n - 1)))
+
+
+def evaluate_edit_evaluate(p, i, b, s, x, T):
+    """history: evaluate, remove breakpoint i, insert (b, s), evaluate again"""
+    p.get_UoRT(x=x, T=T)
+    p.pop(i)
+    p.insert(b, s)
+    return p.get_UoRT(x=x, T=T)
+
+
+def edit_copy_of(p, b, s):
+    """history: round trip through to_dict / from_dict, then edit the COPY"""
+    q = type(p).from_dict(p.to_dict())
+    q.insert(b, s)
+    return q
+
+
+def edit_copy_keeps_original(p, b, s):
+    """history: reload through to_dict / from_dict, edit the copy; is the original object left as it was?"""
+    xs = list(p.intervals)
+    ys = list(p.slopes)
+    ic = list(p._intercepts)
+    edit_copy_of(p, b, s)
+    return xs == p.intervals and ys == p.slopes and ic == p._intercepts
